@@ -15,6 +15,8 @@
 #include "e4_pace.h" // timing-only shim, must precede every Galois header
 
 #include "e4_common.h"
+#include <ctime>
+#include <unistd.h>
 
 #include "galois/graphs/GluonSubstrate.h"
 #define E4_PACE_IMPL
@@ -95,6 +97,7 @@ int main(int argc, char** argv) {
     fprintf(stderr, "usage: c19_partition SESSION RESULT [threads]\n");
     return 2;
   }
+  e4::redirect_output(argv[2]);
   galois::DistMemSys G;
   galois::setActiveThreads(argc > 3 ? atoi(argv[3]) : 1);
   auto& net = galois::runtime::getSystemNetworkInterface();
@@ -110,22 +113,25 @@ int main(int argc, char** argv) {
       MPI_Abort(MPI_COMM_WORLD, 2);
     }
   }
-  fprintf(stderr, "E4-RANK %d: %zu cases in %s\n", comm.rank, cases.size(),
-          argv[1]);
+  fprintf(stderr, "E4-RANK %d: pid %d t=%ld %zu cases in %s\n", comm.rank,
+          (int)getpid(), (long)time(nullptr), cases.size(), argv[1]);
   for (auto& c : cases) {
     if (comm.rank == 0)
       e4::emit_begin(out, c.id);
     comm.barrier();
     // position of every rank, for the diagnosis of a stalled session
-    fprintf(stderr, "E4-RANK %d: in case %ld\n", comm.rank, c.id);
+    fprintf(stderr, "E4-RANK %d: pid %d t=%ld in case %ld\n", comm.rank,
+            (int)getpid(), (long)time(nullptr), c.id);
     if (c.edata == "void")
       run_case<void>(c, comm, out);
     else
       run_case<uint32_t>(c, comm, out);
   }
-  fprintf(stderr, "E4-RANK %d: all cases done, final barrier\n", comm.rank);
+  fprintf(stderr, "E4-RANK %d: pid %d t=%ld all cases done, final barrier\n",
+          comm.rank, (int)getpid(), (long)time(nullptr));
   comm.barrier();
-  fprintf(stderr, "E4-RANK %d: leaving main\n", comm.rank);
+  fprintf(stderr, "E4-RANK %d: pid %d t=%ld leaving main\n", comm.rank,
+          (int)getpid(), (long)time(nullptr));
   if (comm.rank == 0) {
     fprintf(out, "{\"done\":true}\n");
     fclose(out);
